@@ -185,6 +185,11 @@ fn stage(text: &str, want_tree: bool, resp: &mut serde_json::Map<String, Value>)
             json!(erase_positions(&format!("{:?}", linted))),
         );
     }
+    if resp.contains_key("__upto_lint") {
+        resp.remove("__upto_lint");
+        resp.insert("stage".into(), json!("linted"));
+        return None;
+    }
     let (names, udt) = unwrap_linter_context(ctx);
     let igr = generate_instructions(linted, names);
     Some(Staged { igr, udt })
@@ -257,6 +262,9 @@ fn do_run(req: &Value) -> Value {
     let want_trace = req["trace"].as_bool().unwrap_or(false);
     let no_run = req["norun"].as_bool().unwrap_or(false);
     let mut resp = serde_json::Map::new();
+    if req["upto"].as_str() == Some("lint") {
+        resp.insert("__upto_lint".into(), json!(true));
+    }
     let staged = match catch_unwind(AssertUnwindSafe(|| stage(text, want_tree, &mut resp))) {
         Ok(Some(s)) => s,
         Ok(None) => return Value::Object(resp),
